@@ -25,7 +25,7 @@ def angularSpectrum(inputComplexAmp, wvl, inputSpacing, outputSpacing, z):
     
     # If propagation distance is 0, don't bother 
     if z==0:
-        return inputComplexAmp
+        return inputComplexAmp.copy()
 
     N = inputComplexAmp.shape[0] #Assumes Uin is square.
     k = 2*numpy.pi/wvl     #optical wavevector
